@@ -1,0 +1,9 @@
+//go:build !verif
+
+package appdb
+
+import (
+	db "github.com/tendermint/tm-db"
+)
+
+func verifWrapDB(d db.DB) db.DB { return d }
